@@ -1,4 +1,4 @@
-"""C20 -- completion proposals (clauses R20.1-R20.8)."""
+"""C20 -- completion proposals (clauses R20.1-R20.10)."""
 from __future__ import annotations
 
 import ast
@@ -15,6 +15,7 @@ EXPLANATION = (
     "get_names() only for the innermost scope and get_propagated_names() for enclosing scopes (so class attributes are "
     "not offered inside methods).  R20.3: the scope lookup is given the line number and the indentation of the same "
     "line.  R20.4: in find_definition the offset-restricting filter precedes the accepting identity filter.  R20.5 (=R14.8): the word finder consults the hard-keyword oracle only (soft keywords are identifiers).  R20.6: a definition line is compared with lines of the completed module only under a test that the definition's module is that module.  'Returns without internal error at every position' and completeness are not decided."
+    ' R20.9: the try-block repair classifies comment lines on the stripped line.  R20.10: the offset ledger of the repair books exactly the length change of every edit of the line list, before the old line is gone, and shifts an offset by the lines strictly before its own.'
 )
 ASSUMPTIONS = ["proposal name is the first constructor argument"]
 
@@ -228,3 +229,102 @@ def check(ctx, res) -> None:
     from .common import keyword_word_boundary_rule
 
     keyword_word_boundary_rule(ctx, res, "R20.8")
+
+    # ---- R20.9 the try-block repair looks for the line where the block de-indents; comment and blank lines are skipped
+    # whatever their indentation, so both classifications must look at the STRIPPED line
+    fmd = idx.need_func("rope.contrib.fixsyntax._Commenter._find_matching_deindent")
+    stripped_names = set()
+    for x in walk_local(fmd.node):
+        if isinstance(x, ast.Assign) and isinstance(x.value, ast.Call) and call_name(x.value) in ("strip", "lstrip") \
+                and len(x.targets) == 1 and isinstance(x.targets[0], ast.Name):
+            stripped_names.add(x.targets[0].id)
+
+    def _is_stripped(e):
+        return (isinstance(e, ast.Call) and call_name(e) in ("strip", "lstrip")) or (isinstance(e, ast.Name) and e.id in stripped_names)
+
+    n9 = 0
+    for x in walk_local(fmd.node):
+        if isinstance(x, ast.Call) and call_name(x) == "startswith" and isinstance(x.func, ast.Attribute) and x.args \
+                and isinstance(x.args[0], ast.Constant) and x.args[0].value == "#":
+            n9 += 1
+            ok = _is_stripped(x.func.value)
+            res.add("R20.9", f"_find_matching_deindent|comment-test#{n9}", ok, f"{fmd.unit.rel}:{x.lineno}",
+                    "comment lines are recognised on the stripped line" if ok else
+                    f"`{ast.unparse(x)}` tests the raw line: an INDENTED comment inside the try body is no longer skipped, is taken for the "
+                    "de-indent, a `finally: pass` is inserted in front of it and the repaired source still does not parse", function=fmd.qualname)
+    res.floor("R20.9", "comment tests in _find_matching_deindent", n9, 1)
+
+    # ---- R20.10 the repaired source and the original differ in length; go-to-definition maps the cursor through a ledger of
+    # per-line length differences.  Every edit of the line list books exactly its length change, BEFORE the line is replaced,
+    # and the mapping sums the lines strictly before the cursor's line.
+    cm = idx.need_class("rope.contrib.fixsyntax._Commenter")
+
+    def linear(e):
+        """expression over len(<text>) terms and integers -> {term: coefficient}; None when it is anything else"""
+        if isinstance(e, ast.Constant) and isinstance(e.value, int):
+            return {"1": e.value}
+        if isinstance(e, ast.Call) and call_name(e) == "len" and len(e.args) == 1:
+            return {"len(" + ast.unparse(e.args[0]) + ")": 1}
+        if isinstance(e, ast.BinOp) and isinstance(e.op, (ast.Add, ast.Sub)):
+            a, b = linear(e.left), linear(e.right)
+            if a is None or b is None:
+                return None
+            out = dict(a)
+            for k, v in b.items():
+                out[k] = out.get(k, 0) + (v if isinstance(e.op, ast.Add) else -v)
+            return {k: v for k, v in out.items() if v}
+        return None
+
+    seps = {c.func.value.value for f in idx.functions.values() if f.unit.modname == "rope.contrib.fixsyntax" for c in calls_in(f.node)
+            if isinstance(c.func, ast.Attribute) and c.func.attr == "join" and isinstance(c.func.value, ast.Constant) and isinstance(c.func.value.value, str)
+            and "lines" in ast.unparse(c)}
+    if len(seps) != 1:
+        raise AnalysisError("anchor=fixsyntax: the separator the repaired lines are joined with not found")
+    sep = seps.pop()
+    n10 = 0
+    for mname, m in sorted(cm.methods.items()):
+        pn = param_names(m.node)
+        writes = [x for x in walk_local(m.node) if (isinstance(x, ast.Assign) and any(isinstance(t, ast.Subscript) and is_self_attr(t.value, "lines") for t in x.targets))
+                  or (isinstance(x, ast.Expr) and isinstance(x.value, ast.Call) and isinstance(x.value.func, ast.Attribute)
+                      and x.value.func.attr in ("insert", "append", "pop", "remove") and is_self_attr(x.value.func.value, "lines"))]
+        if not writes or mname == "__init__":
+            continue
+        books = [x for x in walk_local(m.node) if isinstance(x, ast.AugAssign) and isinstance(x.op, ast.Add) and isinstance(x.target, ast.Subscript)
+                 and is_self_attr(x.target.value, "diffs")]
+        for w in writes:
+            n10 += 1
+            if isinstance(w, ast.Assign):
+                tgt = next(t for t in w.targets if isinstance(t, ast.Subscript))
+                want = {"len(" + ast.unparse(w.value) + ")": 1, "len(" + ast.unparse(tgt) + ")": -1}
+                desc = "len(new line) - len(old line)"
+            elif w.value.func.attr == "insert":
+                want = {"len(" + ast.unparse(w.value.args[1]) + ")": 1, "1": len(sep)}
+                desc = f"len(inserted line) + {len(sep)} (the joining {sep!r})"
+            else:
+                want, desc = None, "the removed text"
+            before = [b for b in books if b.lineno < w.lineno]
+            got = linear(before[-1].value) if before else None
+            ok = want is not None and got == want
+            res.add("R20.10", f"_Commenter.{mname}|ledger", ok, f"{m.unit.rel}:{w.lineno}",
+                    f"the edit of the line list books {desc} before the line is replaced" if ok else
+                    (f"the edit of the line list at line {w.lineno} books `{ast.unparse(before[-1].value)}` instead of {desc}" if before else
+                     f"the edit of the line list at line {w.lineno} is not booked in the offset ledger (or only after the old line is gone)")
+                    + ": offsets behind the repair are mapped to the wrong character of the repaired source, so go-to-definition and completion after a repaired "
+                    "line look at a different name", function=m.qualname)
+    res.floor("R20.10", "edits of the repaired line list", n10, 2)
+    to = cm.methods.get("transferred_offset")
+    if to is None:
+        raise AnalysisError("anchor=_Commenter.transferred_offset missing")
+    line_vars = {t.id for x in walk_local(to.node) if isinstance(x, ast.Assign) and isinstance(x.value, ast.Call) and call_name(x.value) == "count"
+                 and x.value.args and isinstance(x.value.args[0], ast.Constant) and x.value.args[0].value == sep
+                 and len(x.value.args) == 3 and isinstance(x.value.args[1], ast.Constant) and x.value.args[1].value == 0
+                 for t in x.targets if isinstance(t, ast.Name)}
+    slices = [x for x in walk_local(to.node) if isinstance(x, ast.Subscript) and is_self_attr(x.value, "diffs") and isinstance(x.slice, ast.Slice)]
+    if len(slices) != 1 or not line_vars:
+        raise AnalysisError("anchor=_Commenter.transferred_offset: `sum(self.diffs[:line])` with line = code.count(sep, 0, offset) not found")
+    sl = slices[0].slice
+    ok = sl.lower is None and isinstance(sl.upper, ast.Name) and sl.upper.id in line_vars and sl.step is None
+    res.add("R20.10", "_Commenter.transferred_offset|lines-before", ok, f"{to.unit.rel}:{slices[0].lineno}",
+            "an offset is shifted by the length changes of the lines strictly before its own line" if ok else
+            f"an offset is shifted by `{ast.unparse(slices[0])}`: not exactly the lines before the offset's own line (0-based index = number of {sep!r} before it)",
+            function=to.qualname)
